@@ -31,6 +31,8 @@ pub fn frag_seq(args: &[&str]) -> String {
     let kind = args[0];
     let timeout = if args[1] == "z" {
         Duration::from_secs(0)
+    } else if args[1] == "m" {
+        Duration::from_millis(150)
     } else {
         Duration::from_secs(3600)
     };
@@ -44,6 +46,10 @@ pub fn frag_seq(args: &[&str]) -> String {
                     None => out.push("-".to_string()),
                     Some(Raw(b)) => out.push(format!("E{}", hex(&b))),
                 }
+            } else if op == "w" {
+                // a wait longer than the medium lifetime (mode m)
+                std::thread::sleep(Duration::from_millis(300));
+                out.push("w".to_string());
             } else {
                 std::thread::sleep(Duration::from_micros(50));
                 f.timer();
